@@ -75,6 +75,15 @@ fn sorted_canon(v: &IDLValue) -> String {
     }
 }
 
+/// names of the corpus types, and the encoding of a generated value of one of them (for the hostile-input families of C06)
+pub fn corpus_names() -> Vec<String> {
+    entries().iter().map(|e| e.name.clone()).collect()
+}
+pub fn corpus_encode(idx: usize, r: &mut crate::Rng) -> Option<Vec<u8>> {
+    let es = entries();
+    (es[idx % es.len()].encode)(r)
+}
+
 pub fn eval(out: &mut Out, op: &str, args: &[&str]) -> Option<String> {
     let name = *args.first()?;
     let idx = find(name)?;
@@ -156,7 +165,22 @@ pub fn eval(out: &mut Out, op: &str, args: &[&str]) -> Option<String> {
                 Ok(Ok(v)) => format!("ok ({})", show(&v)),
             })
         }
-        "nat.hl" => Some("hl".into()),
+        // host-limit cases and hostile inputs: no claim about the answer, but the call has to return (C06)
+        "nat.hl" | "nat.total" => {
+            let bytes = sexp::unhx(args.get(1)?)?;
+            let dec = e.decode;
+            let cfgd = e.decode_cfg;
+            let b2 = bytes.clone();
+            let plain = guarded(move || dec(&bytes).is_ok());
+            let metered = guarded(move || cfgd(&b2, Some(100_000), Some(100_000)).is_ok());
+            Some(if plain.is_err() || metered.is_err() {
+                "panic".into()
+            } else if op == "nat.hl" {
+                "hl".into()
+            } else {
+                "returned".into()
+            })
+        }
         // the native decoder mirror (lean/CandidModel/Native.lean): same message, same Rust type, described as a term
         // of the mirror's grammar; no oracle here, the model answers for itself
         "nat.mirror" | "nat.mirrorU" => {
